@@ -267,7 +267,7 @@ class TemperedSamplingResult(SamplingResult):
     def _load(cls, filename):
         ds = SamplingResult._load(filename)
         stages = [SamplingResult._load(filename, group=GROUPNAME.format(i))
-                  for i in range(len(ds.strategy.stage_strategies) - 1)]
+                  for i in range(len(ds.strategy.stage_strategies))]
         return cls(ds, stages, ds.strategy, ds.time)
 
 
